@@ -2,7 +2,7 @@
    observation (Engine/Observe.v).  The same extracted functions judge the model's run and the
    implementation's run.  A monitor returning false on the implementation's observation is a
    concrete failing input for the property. *)
-From GM Require Import Base.Prelude Base.Outcome Codec.Packets Codec.Settings Engine.Model Engine.Observe Validate.Spec.
+From GM Require Import Base.Prelude Base.Outcome Codec.Packets Codec.Settings Engine.Model Engine.Observe Validate.Spec Codec.Framing.
 Open Scope N_scope.
 
 Definition is_okb {A} (o : outcome A) : bool := match o with Ok _ => true | _ => false end.
@@ -260,6 +260,29 @@ Fixpoint mon_c06_reserved (pubs : list (N * N)) (ws : list wev) : bool :=
        forallb (fun '(pid, id) => if mem id (sn_ops sn) then match lookup pid (sn_alloc sn) with Some o => o =? id | None => false end else true) pubs)
       && mon_c06_reserved pubs rest
   | _ :: rest => mon_c06_reserved pubs rest
+  end.
+
+(* every identifier on the wire is a RESERVED one: an id-bearing packet whose identifier is not in the reservation table after
+   the call that emitted it must be explained by an operation that completed during that same call (a completion releases
+   the id); [unowned] / [dones] count the unexplained sends and the completions of the current call (observation order
+   within a call: sends, completions, the call record).  An operation that keeps a stale identifier after the table was
+   cleared (session lost) and is then retransmitted with it is caught at that transmission, long before the allocator
+   wraps around and hands the same identifier to a second operation. *)
+Fixpoint mon_c06_sent_reserved (unowned dones : N) (ws : list wev) : bool :=
+  match ws with
+  | [] => true
+  | WSent _ p None :: rest =>
+      match p with
+      | Publish _ | Subscribe _ | Unsubscribe _ =>
+          match packet_pid p with
+          | Some _ => mon_c06_sent_reserved (unowned + 1) dones rest
+          | None => mon_c06_sent_reserved unowned dones rest
+          end
+      | _ => mon_c06_sent_reserved unowned dones rest
+      end
+  | WDone _ _ _ :: rest => mon_c06_sent_reserved unowned (dones + 1) rest
+  | WCall _ _ r _ :: rest => (is_panicb r || (unowned <=? dones)) && mon_c06_sent_reserved 0 0 rest
+  | _ :: rest => mon_c06_sent_reserved unowned dones rest
   end.
 
 (* ------------------------------------------------------------------ C07: handshake discipline *)
@@ -895,6 +918,36 @@ Fixpoint mon_c17_in (maxin : N) (table : list (N * bytes)) (expect : list (publi
   | _ :: rest => mon_c17_in maxin table expect rest
   end.
 
+(* a server that follows the protocol is never reported as violating it (decoding clause): on every connection, as long as
+   no call has failed yet, the reads are fed to a fresh reference framing decoder (the model decoder of Codec/Framing.v, which
+   Properties/C03 proves to accept exactly the well-formed packet streams, for every chunking); when the reference accepts
+   the stream so far (complete packets plus an incomplete tail), the engine must not answer the read with DecodingFailure.
+   A decoder that is not reset between connections, or that keeps state from an earlier error, is caught here. *)
+Fixpoint mon_c11_honest_decode (v : version) (max_in : N) (st : option decoder) (ws : list wev) : bool :=
+  match ws with
+  | [] => true
+  | WOpen _ :: rest => mon_c11_honest_decode v max_in (Some decoder_init) rest
+  | WClose _ _ :: rest => mon_c11_honest_decode v max_in None rest
+  | WReset _ :: rest => mon_c11_honest_decode v max_in None rest
+  | WCall _ e r _ :: rest =>
+      match e with
+      | EvUser _ _ _ | EvNextService _ => mon_c11_honest_decode v max_in st rest
+      | EvData _ data =>
+          match st with
+          | None => mon_c11_honest_decode v max_in None rest
+          | Some d =>
+              let '(d', _, rr) := decode_bytes v max_in d data in
+              match r with
+              | Ok _ => mon_c11_honest_decode v max_in (if is_okb rr then Some d' else None) rest
+              | Err k => negb (is_okb rr && errkind_eqb k EDecodingFailure) && mon_c11_honest_decode v max_in None rest
+              | Panic _ => mon_c11_honest_decode v max_in None rest
+              end
+          end
+      | _ => mon_c11_honest_decode v max_in (if is_okb r then st else None) rest
+      end
+  | _ :: rest => mon_c11_honest_decode v max_in st rest
+  end.
+
 (* ------------------------------------------------------------------ all monitors, tagged *)
 (* tag = property number * 100 + index *)
 Definition all_monitors (cfg : config) (ws : list wev) : list (N * bool) :=
@@ -904,6 +957,7 @@ Definition all_monitors (cfg : config) (ws : list wev) : list (N * bool) :=
     (1101, mon_no_panic ws);
     (1102, mon_close_clean Disconnected ws);
     (1103, mon_error_absorbing false ws);
+    (1104, mon_c11_honest_decode (cf_version cfg) (match co_max_packet (cf_connect cfg) with Some m => m | None => 268435455 end) None ws);
     (101, mon_unique_completion [] [] ws);
     (102, mon_own_ack [] ws);
     (103, mon_reset_clears ws);
@@ -914,6 +968,7 @@ Definition all_monitors (cfg : config) (ws : list wev) : list (N * bool) :=
     (601, mon_c06 [] ws);
     (602, mon_c06_retx [] ws);
     (603, mon_c06_reserved [] ws);
+    (604, mon_c06_sent_reserved 0 0 ws);
     (701, mon_c07 4 ws);
     (702, mon_c07_connected false ws);
     (703, mon_c07_faithful v5 (cf_connect cfg) false ws);
